@@ -208,7 +208,7 @@ def main():
                     f"shard {r['shard']}: {r['status']} (log {r['log']})")
         if rep is None:
             continue
-        if r["status"] == "ok":
+        if r["status"] == "ok" and not r.get("aux"):
             conclusive_shards += 1
         for k, v in rep.get("counters", {}).items():
             if k.startswith("max_"):
